@@ -122,8 +122,13 @@ func (st *State) exec(in ssa.Instruction) []*State {
 	case *ssa.MapUpdate:
 	case *ssa.TypeAssert:
 		if x.CommaOk {
+			// the outcome of a type test is a property of the tested value: two tests of the same value agree
+			okKey := ip.fresh("assertok")
+			if ov := st.eval(x.X); ov.Sym != "" {
+				okKey = "isa:" + ov.Sym + ":" + types.TypeString(x.AssertedType, nil)
+			}
 			st.vals[x] = Val{K: KTuple, Tup: []Val{ip.symbolic(x.AssertedType, ("%"+st.Fn.Name()+":"+x.Name()), st),
-				{K: KBool, B: &Cond{Op: CPred, Key: ip.fresh("assertok")}}}}
+				{K: KBool, B: &Cond{Op: CPred, Key: okKey}}}}
 		} else {
 			st.vals[x] = ip.symbolic(x.AssertedType, ("%"+st.Fn.Name()+":"+x.Name()), st)
 		}
@@ -393,6 +398,14 @@ func (st *State) eqCond(a, b Val, x *ssa.BinOp) *Cond {
 		if ka > kb {
 			ka, kb = kb, ka
 		}
+		// identity of error values: a sentinel equals itself and nothing else that is known to be a
+		// different sentinel or a freshly constructed error
+		known := func(k string) bool {
+			return strings.HasPrefix(k, "@") || strings.HasPrefix(k, "new:") || strings.HasPrefix(k, "wrap(")
+		}
+		if a.K == KErr && b.K == KErr && known(ka) && known(kb) {
+			return &Cond{Op: CConst, V: ka == kb && strings.HasPrefix(ka, "@")}
+		}
 		return &Cond{Op: CPred, Key: "eq:" + ka + "=" + kb}
 	}
 	switch other.K {
@@ -438,6 +451,11 @@ func (st *State) convert(x *ssa.Convert) Val {
 	dlo, dhi, dInt := intBounds(x.Type(), ip.sizes())
 	if sInt && dInt {
 		f := st.intOf(v, x.X.Type(), "cv")
+		if h, ok := ip.Hooks.(NarrowArithHook); ok && slo >= 0 && shi < dhi {
+			if b, isBin := x.X.(*ssa.BinOp); isBin && (b.Op == token.ADD || b.Op == token.MUL || b.Op == token.SHL) {
+				h.NarrowArith(st, x, f, shi)
+			}
+		}
 		// exact when the source range fits the destination range, or the value provably does
 		if slo >= dlo && shi <= dhi {
 			return IntVal(f)
@@ -608,6 +626,12 @@ func (st *State) call(x *ssa.Call) []*State {
 		st.vals[x] = Val{K: KPtr, O: o}
 		return []*State{st}
 	}
+	if f := cc.StaticCallee(); f != nil {
+		if spec, ok := ip.Abstract[f]; ok && spec.ArgIdx < len(args) {
+			st.vals[x] = st.applyAbstract(x, f, spec, args, resName)
+			return []*State{st}
+		}
+	}
 	// package functions with bodies
 	if f := cc.StaticCallee(); f != nil && f.Blocks != nil && f.Pkg == st.Fn.Pkg {
 		if ip.isPurePredicate(f) {
@@ -678,6 +702,11 @@ func (ip *Interp) isPurePredicate(f *ssa.Function) bool {
 	return ok
 }
 
+// ioPrimitive: calls whose error is a failure of the underlying reader/writer itself.
+var ioPrimitive = map[string]bool{"io.ReadFull": true, "io.ReadAtLeast": true, "iface:(io.Reader).Read": true, "(*bufio.Reader).Peek": true,
+	"(*bufio.Reader).Discard": true, "(*bufio.Reader).Read": true, "iface:(io.Seeker).Seek": true, "iface:(io.ReadSeeker).Seek": true,
+	"iface:(io.Writer).Write": true}
+
 func (st *State) opaqueResult(x *ssa.Call, name, resName string) Val {
 	ip := st.ip
 	sig := x.Call.Signature()
@@ -686,6 +715,22 @@ func (st *State) opaqueResult(x *ssa.Call, name, resName string) Val {
 		v := ip.symbolic(t, n, st)
 		if v.K == KErr && (name == "fmt.Errorf" || name == "errors.New") {
 			v.ErrNil = No
+			// remember whether the new error wraps another one (and which)
+			v.Sym = "new:" + n
+			if name == "fmt.Errorf" && len(x.Call.Args) == 2 {
+				if vals, ok := ssau.VarargValues(x.Call.Args[1]); ok {
+					for _, a := range vals {
+						if av, has := st.vals[ssau.StripIface(a)]; has && av.K == KErr {
+							v.Sym = "wrap(" + av.Sym + ")"
+						} else if av, has := st.vals[a]; has && av.K == KErr {
+							v.Sym = "wrap(" + av.Sym + ")"
+						}
+					}
+				}
+			}
+		}
+		if v.K == KErr && ioPrimitive[name] {
+			v.Sym = "ioerr:" + v.Sym
 		}
 		return v
 	}
@@ -1171,6 +1216,14 @@ func (st *State) bindOutcome(f *ssa.Function, o *Outcome, paramVal map[string]Va
 		}
 		st.NE = append(st.NE, g)
 	}
+	// disequalities already known must survive the new facts
+	if len(o.Facts) > 0 {
+		for _, ne := range st.NE {
+			if !ne.IsConst() && st.Prove(ne) && st.Prove(ne.Scale(-1)) {
+				return false, nil
+			}
+		}
+	}
 	for k, v := range o.Preds {
 		ck := st.instPure(k, paramVal, inst)
 		if old, ok := st.Preds[ck]; ok && old != v {
@@ -1179,7 +1232,12 @@ func (st *State) bindOutcome(f *ssa.Function, o *Outcome, paramVal map[string]Va
 		st.Preds[ck] = v
 	}
 	for k := range o.Marks {
-		st.marks[k]++
+		if strings.HasPrefix(k, "clear:") {
+			delete(st.marks, k[6:]) // the callee undid this progress (e.g. sought back to the start)
+		}
+	}
+	for k := range o.Marks {
+		st.Mark(k)
 	}
 	for k, tv := range o.ParamConds {
 		if c := st.paramCond(k, paramVal); c != nil {
@@ -1302,6 +1360,18 @@ func (ip *Interp) pureKeyForms(k string) []lin.Form {
 // paramCond resolves a parameter-rooted boolean cell name ("$h.HasAdaptationField", "$af/X.flag") to the
 // caller's condition, or nil when the caller has no boolean value for it.
 func (st *State) paramCond(key string, paramVal map[string]Val) *Cond {
+	if strings.HasPrefix(key, "isa:$") {
+		// isa:$name:Type — re-key on the caller's value
+		rest := key[4:]
+		i := strings.IndexByte(rest, ':')
+		if i < 0 {
+			return nil
+		}
+		if av, ok := paramVal[rest[:i]]; ok && av.Sym != "" {
+			return &Cond{Op: CPred, Key: "isa:" + av.Sym + rest[i:]}
+		}
+		return nil
+	}
 	if strings.HasPrefix(key, "nil:") {
 		root, hops, path, _ := splitParamName(key[4:])
 		av, ok := paramVal[root]
@@ -1406,6 +1476,12 @@ func (st *State) Bits(w *Obj) lin.Form {
 		st.mem[k] = v
 	}
 	return v.F
+}
+
+// NarrowArithHook is told about sums/products computed in a narrow unsigned type and then widened: the
+// arithmetic wraps in the narrow type although the wider destination could hold the true value.
+type NarrowArithHook interface {
+	NarrowArith(st *State, conv *ssa.Convert, value lin.Form, max int64)
 }
 
 // EmitHook is implemented by hooks interested in emissions.
@@ -1587,4 +1663,44 @@ func (st *State) Apply(f *ssa.Function, args []Val, inst string) []Applied {
 		out = append(out, Applied{St: ns, Results: res, Outcome: &sum.Outcomes[oi]})
 	}
 	return out
+}
+
+// applyAbstract applies the contract of an abstracted calculator / writer.
+func (st *State) applyAbstract(x *ssa.Call, f *ssa.Function, spec AbstractSpec, args []Val, resName string) Val {
+	ip := st.ip
+	a := args[spec.ArgIdx]
+	key := "?"
+	switch a.K {
+	case KPtr:
+		if a.O != nil {
+			key = joinPath(a.O.ID, a.Sym)
+		}
+	case KSlice:
+		key = a.S.ID
+	case KNilPtr:
+		key = "nil"
+	}
+	name := "ƒ" + spec.Name + "(" + key + ")"
+	ip.SetBounds(name, 0, lin.PosInf)
+	q := lin.Sym(name)
+	if !spec.Writer {
+		return IntVal(q)
+	}
+	// writer: find the *BitsWriter argument
+	for i, p := range f.Params {
+		if isWriterPtr(p.Type()) && i < len(args) && args[i].K == KPtr && args[i].O != nil {
+			w := args[i].O
+			st.mem[w.ID+".#bits"] = IntVal(st.Bits(w).Add(q.Scale(8)).AddC(spec.ExtraBits))
+			st.Events = append(st.Events, Event{Kind: "call", Obj: w.ID, Width: q.Scale(8).AddC(spec.ExtraBits), Type: f.Name(), Pos: x.Pos(), ID: resName})
+		}
+	}
+	sig := f.Signature
+	errv := Val{K: KErr, Sym: resName + ".err"}
+	switch sig.Results().Len() {
+	case 1:
+		return errv
+	case 2:
+		return Val{K: KTuple, Tup: []Val{IntVal(q.AddC(spec.ExtraBits / 8)), errv}}
+	}
+	return st.opaqueResult(x, f.Name(), resName)
 }
